@@ -365,6 +365,7 @@ def _strategy():
         kinds = st.sampled_from(
             ["set"] * 6
             + ["del", "del", "pop", "popitem", "update", "setdefault", "clear", "mutate", "mutate", "mutate", "flush", "reload", "reload", "reopen", "reopen", "crash_reopen"]
+            + ["mutate_flush", "mutate_flush"]
         )
         for _ in range(n):
             k = draw(kinds)
@@ -381,6 +382,10 @@ def _strategy():
                 ops.append(["setdefault", draw(key), draw(values)])
             elif k == "mutate":
                 ops.append(["mutate", draw(key), draw(small)])
+            elif k == "mutate_flush":
+                # in-place change made durable by an explicit flush (often repeated on one instance)
+                ops.append(["mutate", draw(key), draw(small)])
+                ops.append(["flush"])
             else:
                 ops.append([k])
         if ops[-1][0] != "reopen":
